@@ -125,7 +125,7 @@ func rpathHistory(out *Out, r *rand.Rand) {
 				what = "del"
 			case regattapb.Command_TXN:
 				rq := &regattapb.TxnRequest{Compare: c.Txn.Compare, Success: c.Txn.Success, Failure: c.Txn.Failure}
-				if rq.IsReadonly() {
+				if txnIsReadonly(rq) {
 					continue
 				}
 				var resp *regattapb.TxnResponse
@@ -189,7 +189,7 @@ func rpathHistory(out *Out, r *rand.Rand) {
 					t.Compare = nil
 				}
 				rq := &regattapb.TxnRequest{Compare: t.Compare, Success: t.Success, Failure: t.Failure}
-				if !rq.IsReadonly() {
+				if !txnIsReadonly(rq) {
 					continue
 				}
 				ans := guard(func() string {
